@@ -135,7 +135,7 @@ pub fn jobs(check: &str, thorough: bool, seed: u64) -> Vec<MiriJob> {
       ("C05", true) => vec![("tc", 6, 16), ("index", 4, 16)],
       ("C19", false) => vec![("index", 2, 4)],
       ("C19", true) => vec![("index", 12, 16)],
-      ("C20", false) => vec![("tc-pools", 1, 4), ("tenants", 1, 4), ("shared-pool", 2, 4), ("first-use", 2, 6)],
+      ("C20", false) => vec![("tc-pools", 1, 4), ("tenants", 1, 4), ("shared-pool", 3, 8), ("first-use", 2, 6)],
       ("C20", true) => vec![("tc-pools", 8, 16), ("tenants", 6, 16), ("shared-pool", 8, 16), ("first-use", 8, 16)],
       _ => vec![],
    };
